@@ -155,6 +155,12 @@ class Function:
     def where(self):
         return "%s:%d" % (self.file, self.line)
 
+    def param_by_root(self, root):
+        for p in self.params:
+            if "v%d" % p["d"] == root:
+                return p
+        return None
+
     def param(self, name):
         for p in self.params:
             if p["n"] == name:
@@ -329,29 +335,58 @@ def root_of_lvalue(n):
 ASSIGN_OPS = {"=", "+=", "-=", "*=", "/=", "%=", "<<=", ">>=", "&=", "|=", "^="}
 
 
-def written_roots(n):
-    """roots (possibly) modified when expression/statement node n itself is evaluated (not its children)."""
-    out = set()
+def written_lvalues(n):
+    """lvalue expressions (possibly) modified when node n itself is evaluated (not its children)."""
+    out = []
     k = n.k
     if k in ("BinaryOperator", "CompoundAssignOperator") and n.op in ASSIGN_OPS:
-        out.add(root_of_lvalue(n.c[0]))
+        out.append(n.c[0])
     elif k == "UnaryOperator" and n.op in ("++", "--"):
-        out.add(root_of_lvalue(n.c[0]))
+        out.append(n.c[0])
     elif k == "CXXOperatorCallExpr":
         if n.op in ASSIGN_OPS or n.op in ("++", "--"):
-            out.add(root_of_lvalue(n.c[0]))
+            out.append(n.c[0])
         else:
             _nonconst_args(n, out)
     elif k == "CXXMemberCallExpr":
         info = n.callee_info
-        if not info.get("const") and not info.get("static"):
-            out.add(root_of_lvalue(n.c[0]) if n.c else "?")
+        if not info.get("const") and not info.get("static") and n.c:
+            out.append(n.c[0])
         _nonconst_args(n, out)
     elif k in ("CallExpr", "CXXConstructExpr", "CXXTemporaryObjectExpr"):
         _nonconst_args(n, out)
-    elif k == "VarDecl":
-        out.add("v%d" % n.get("d"))
     return out
+
+
+def written_roots(n):
+    """roots (possibly) modified when expression/statement node n itself is evaluated (not its children)."""
+    if n.k == "VarDecl":
+        return {"v%d" % n.get("d")}
+    return {root_of_lvalue(e) for e in written_lvalues(n)}
+
+
+def lvalue_subscripts(n):
+    """index expressions met while walking from an lvalue expression down to its storage root"""
+    out = []
+    n = n.strip()
+    while True:
+        k = n.k
+        if k == "ArraySubscriptExpr":
+            out.append(n.c[1])
+            n = n.c[0].strip()
+        elif k == "CXXOperatorCallExpr" and n.op == "[]" and len(n.c) == 2:
+            out.append(n.c[1])
+            n = n.c[0].strip()
+        elif k == "CXXOperatorCallExpr" and n.c:
+            n = n.c[0].strip()
+        elif k == "MemberExpr" and n.c and n.c[0].k != "CXXThisExpr":
+            n = n.c[0].strip()
+        elif k == "CXXMemberCallExpr" and n.c and n.c[0].k != "CXXThisExpr":
+            n = n.c[0].strip()
+        elif k == "UnaryOperator" and n.c:
+            n = n.c[0].strip()
+        else:
+            return out
 
 
 def _split_sig(sig):
@@ -379,10 +414,18 @@ def _nonconst_args(n, out):
         args = n.c
     for idx, a in enumerate(args):
         t = sig[idx].strip() if idx < len(sig) else "&"
-        if t.endswith("&") and not t.startswith("const ") and " const &" not in t or t.endswith("*"):
-            if t.endswith("&&"):
-                continue
-            out.add(root_of_lvalue(a))
+        if t.endswith("&&"):
+            continue
+        if t.endswith("&") and not t.startswith("const ") and " const &" not in t:
+            out.append(a)
+        elif t.endswith("*") and not t.startswith("const "):
+            # pointer passed by value: the pointee may be written. Only definite pointees count: &x, or a named pointer
+            # variable/field; a pointer returned by a call (fresh object, get(), clone()) has no definite root.
+            b = a.strip()
+            if b.k == "UnaryOperator" and b.op == "&":
+                out.append(b.c[0])
+            elif b.k in ("DeclRefExpr", "MemberExpr"):
+                out.append(b)
 
 
 def enclosing(n, kinds):
